@@ -665,8 +665,26 @@ func (e *specEnv) call(n *ast.CallExpr) SV {
 		a, b := arg(1), arg(2)
 		return SV{V: TV{e.sortOf(a), tIte(c, e.term(a), e.term(b))}, T: a.T}
 	case "memreader", "memwriter":
-		// mode predicates: always true as terms; their effect is set up at entry
-		return SV{V: TV{SBool, "true"}}
+		// mode predicates: true for in-memory streams, and for symbolic ones that
+		// were declared so by the enclosing function's own requires clause
+		v := arg(0)
+		switch u := v.V.(type) {
+		case IfaceV:
+			if u.Sym != "" {
+				_, ok := e.st.ghost[name+":"+u.Sym]
+				if name == "memreader" {
+					_, ok = e.st.ghost["rem:"+u.Sym]
+				}
+				return SV{V: TV{SBool, tBool(ok)}}
+			}
+			if p, ok := u.Payload.(PtrV); ok && ghostFor(p.Elem) != "" {
+				return SV{V: TV{SBool, "true"}}
+			}
+			return SV{V: TV{SBool, "false"}}
+		case PtrV:
+			return SV{V: TV{SBool, tBool(ghostFor(u.Elem) != "")}}
+		}
+		return SV{V: TV{SBool, "false"}}
 	}
 	if sf, ok := specFuncs[name]; ok {
 		var args []SV
